@@ -3841,9 +3841,12 @@ func pctEscaped(t *Term) (*Term, bool) {
 // stamp><digits><text after it>: every path that answers true established the
 // prefix, the suffix and a non-empty stamp, and the function answers false from
 // inside its loop over the stamp for a rune outside '0'..'9'.
-func (c *Ctx) ruleRotatedName() {
+func (c *Ctx) ruleRotatedName() { c.ruleRotatedNameAs("C15.pattern") }
+
+// ruleRotatedNameAs: the own-name test under C08's name (files of ANOTHER sink that the test
+// accepts are removed by this sink's retention: events the other sink acknowledged are lost).
+func (c *Ctx) ruleRotatedNameAs(rule string) {
 	p, r := c.P, c.R
-	const rule = "C15.pattern"
 	var fn *ssa.Function
 	for _, f := range p.FuncsIn(PkgRoot) {
 		if f.Name() == "isRotatedName" && f.Parent() == nil {
@@ -5664,6 +5667,37 @@ func (c *Ctx) ruleRegistryNodeReaders(rule string) {
 		"(*eventlogger.Broker).unregisterNode":   "hands the node out of the registry to be closed",
 	}
 	n := 0
+	var calledOnlyFrom func(f *ssa.Function, d int) (string, bool)
+	calledOnlyFrom = func(f *ssa.Function, d int) (string, bool) {
+		if d > 2 {
+			return "", false
+		}
+		via, nCalls := "", 0
+		okAll := true
+		for _, g := range p.FuncsIn(PkgRoot) {
+			gr := g
+			for gr.Parent() != nil {
+				gr = gr.Parent()
+			}
+			eachInstr(g, func(in ssa.Instruction) {
+				ci, ok := in.(ssa.CallInstruction)
+				if !ok || ci.Common().StaticCallee() != f {
+					return
+				}
+				nCalls++
+				if _, ok := allowed[p.ShortFn(gr)]; ok {
+					via = p.ShortFn(gr)
+					return
+				}
+				if v, ok := calledOnlyFrom(gr, d+1); ok {
+					via = v
+					return
+				}
+				okAll = false
+			})
+		}
+		return via, okAll && nCalls > 0
+	}
 	for _, f := range p.FuncsIn(PkgRoot) {
 		root := f
 		for root.Parent() != nil {
@@ -5680,6 +5714,12 @@ func (c *Ctx) ruleRegistryNodeReaders(rule string) {
 			}
 			n++
 			why, ok2 := allowed[p.ShortFn(root)]
+			if !ok2 {
+				// a helper extracted from an allowed function: every call of it is made by one
+				if via, okVia := calledOnlyFrom(root, 0); okVia {
+					why, ok2 = "a helper of "+via+", which "+allowed[via], true
+				}
+			}
 			r.Check(ok2, rule, p.ShortFn(root)+":registry-node-readers", p.InstrPos(in), "the registry's node is read where "+why,
 				p.ShortFn(root)+" takes a Node from the registry (nodeUsage.node) and works with it: the registry holds whatever was registered LAST under the id, while a pipeline registered before a re-registration still runs the node it was linked with — acting on the registry's node makes a re-registration reach into (or bypass) pipelines registered earlier")
 		})
@@ -5814,5 +5854,361 @@ func (c *Ctx) ruleKeyBufferFresh(rule string) {
 	})
 	if n < 2 {
 		r.Und(rule, "key-buffer-fresh:instance-floor", "", "fewer than 2 stores of salt / info found in the rotation arm of Process")
+	}
+}
+
+// rulePanicSites (C03.private / C04.selfsync <fn>:panic-site): the instructions of package
+// eventlogger that panic by construction when their operand is not what they expect are a
+// closed, confirmed set: unchecked type assertions appear only inside graphMap's methods, on
+// what the sync.Map hands back (Store's signature types what goes in, C05.map / C04.selfsync
+// confine the map to those methods), and there is no explicit panic(). An unchecked assertion
+// on anything a caller or a node supplies (a payload, a Node, an option) turns a wrong value
+// into a crash inside Send or a registry call.
+func (c *Ctx) rulePanicSites(rule string) {
+	p, r := c.P, c.R
+	n := 0
+	for _, f := range p.FuncsIn(PkgRoot) {
+		root := f
+		for root.Parent() != nil {
+			root = root.Parent()
+		}
+		inGraphMap := root.Signature.Recv() != nil && typeShort(root.Signature.Recv().Type()) == "eventlogger.graphMap"
+		eachInstr(f, func(in ssa.Instruction) {
+			switch x := in.(type) {
+			case *ssa.TypeAssert:
+				if x.CommaOk {
+					return
+				}
+				n++
+				r.Check(inGraphMap, rule, p.ShortFn(f)+":panic-site:assert", p.InstrPos(in), "unchecked assertion on what graphMap's own sync.Map hands back (typed by Store)",
+					"an unchecked type assertion to "+typeShort(x.AssertedType)+" outside graphMap's methods: a value of another type panics inside a Broker call instead of being reported as an error")
+			case *ssa.Panic:
+				// go/ssa also emits Panic for a function that falls off its end without a return in dead code; only explicit calls have a position
+				if !x.Pos().IsValid() {
+					return
+				}
+				n++
+				r.Bad(rule, p.ShortFn(f)+":panic-site:panic", p.InstrPos(in), "an explicit panic in package eventlogger: the Broker's calls are specified not to panic")
+			}
+		})
+	}
+	if n < 2 {
+		r.Und(rule, "panic-site:instance-floor", "", fmt.Sprintf("only %d unchecked assertions found (the two in graphMap.Range expected)", n))
+	}
+}
+
+// rulePositiveExpiration (C11.insert positive-expiration; the stamp half of C17.first): a
+// group is opened with an expiry in the FUTURE: every path of Process that stamps a group
+// with w.Now().Add(w.Expiration) established Expiration > 0 or stored the default first. A
+// group born expired is composed on its own by the very next sweep, so the events that
+// follow under the same id form a second group — "together with exactly the other events of
+// the same ID received since the group was opened" no longer holds (and without a Broker
+// the first event is silently discarded).
+func (c *Ctx) rulePositiveExpiration(rule string) {
+	p, r := c.P, c.R
+	proc := c.Fn(rule, PkgGated, "Filter", "Process")
+	if proc == nil {
+		return
+	}
+	okPos, nStamp := true, 0
+	tiny := func(caller *ssa.Function, call *ssa.Call, callee *ssa.Function) bool {
+		return PkgPathOf(caller) == PkgPathOf(callee) && len(callee.Blocks) <= 6 // a defaulting helper, not the sweep
+	}
+	for _, pa := range c.enum(rule, proc, PathOpts{Inline: tiny}) {
+		stamps := false
+		for _, s := range pa.CallsOn() {
+			if stepCallName(s) == "(time.Time).Add" && s.Depth == 0 {
+				if ci, ok := s.In.(ssa.CallInstruction); ok && pa.TermsAt(s).Of(ci.Common().Args[1]).Is("Field", "Expiration") {
+					stamps = true
+				}
+			}
+		}
+		if !stamps {
+			continue
+		}
+		nStamp++
+		positive := false
+		for _, at := range pa.Atoms {
+			if at.Op == "lt" && !at.Neg && at.R.Is("Field", "Expiration") && at.L.Op == "Const" {
+				if k, ok := constInt(at.L.V); ok && k >= 0 {
+					positive = true
+				}
+			}
+		}
+		for _, s := range pa.Steps {
+			if st, ok := s.In.(*ssa.Store); ok {
+				if fa, ok := st.Addr.(*ssa.FieldAddr); ok && typeShort(fa.X.Type()) == "gated.Filter" && fieldName(fa) == "Expiration" {
+					positive = true
+				}
+			}
+		}
+		if !positive && okPos {
+			okPos = false
+			r.Bad(rule, "Process:positive-expiration", p.InstrPos(pa.End), "a group is stamped with w.Now().Add(w.Expiration) on a path that neither found the expiration positive nor replaced it by the default: the group is born expired, the next sweep composes it alone and the events that follow under its id form a second group ("+shortStr(p.PathSummary(pa), 200)+")")
+		}
+	}
+	if okPos {
+		r.Check(nStamp > 0, rule, "Process:positive-expiration", p.Pos(proc.Pos()), fmt.Sprintf("%d stamping paths, each with a positive or defaulted expiration", nStamp), "no path of Process stamps a group")
+	}
+}
+
+// ruleSweepUnknown (C09.value sweep-classification): what the sweep finds in a map that no
+// tag classified is UNCLASSIFIED: the classification handed to filterValue / filterSlice by
+// processUnfiltered is the literal (unknown, unknown), which filterValue always redacts. It
+// is not computed from a class and the overrides: the overrides speak about public,
+// sensitive and secret data, and "secret: none" must not turn every untagged map value
+// into plaintext.
+func (c *Ctx) ruleSweepUnknown(rule string) {
+	p, r := c.P, c.R
+	fn := c.Fn(rule, PkgEncrypt, "trackedMaps", "processUnfiltered")
+	if fn == nil {
+		return
+	}
+	n := 0
+	eachInstr(fn, func(in ssa.Instruction) {
+		ci, ok := in.(ssa.CallInstruction)
+		if !ok {
+			return
+		}
+		idx := -1
+		switch calleeName(ci.Common()) {
+		case "(*filters/encrypt.Filter).filterValue":
+			idx = 3
+		case "(*filters/encrypt.Filter).filterSlice":
+			idx = 2
+		default:
+			return
+		}
+		if idx >= len(ci.Common().Args) {
+			return
+		}
+		n++
+		v := ci.Common().Args[idx]
+		okLit := false
+		var check func(v ssa.Value, d int) bool
+		check = func(v ssa.Value, d int) bool {
+			switch x := v.(type) {
+			case *ssa.Alloc:
+				cls, op := "", ""
+				for _, st := range litStores(x) {
+					if fa, ok := st.Addr.(*ssa.FieldAddr); ok {
+						s, _ := constString(st.Val)
+						switch fieldName(fa) {
+						case "Classification":
+							cls = s
+						case "Operation":
+							op = s
+						}
+					}
+				}
+				return cls == "unknown" && op == "unknown"
+			case *ssa.Phi:
+				if d > 3 {
+					return false
+				}
+				for _, e := range x.Edges {
+					if !check(e, d+1) {
+						return false
+					}
+				}
+				return len(x.Edges) > 0
+			}
+			return false
+		}
+		okLit = check(v, 0)
+		r.Check(okLit, rule, "processUnfiltered->"+calleeName(ci.Common())+":sweep-classification", p.InstrPos(in), "untagged map values are filtered as (unknown, unknown): always redacted",
+			"the sweep hands "+shortStr(p.NewTerms(nil).Of(v).String(), 120)+" to "+calleeName(ci.Common())+" instead of the literal (unknown, unknown): the values of untagged maps then follow a class's operation and its override — with that class overridden to none they leave in plaintext")
+	})
+	if n < 5 {
+		r.Und(rule, "sweep-classification:instance-floor", "", fmt.Sprintf("only %d value-handler calls found in the sweep (5 expected: string, []byte, two wrapper arms, slice)", n))
+	}
+}
+
+// ruleTaggableTrackIdentity (C10.mark track-identity, also C09): the "make sure it's tracked"
+// registration that follows filterTaggable(t) registers the map under the SAME identity that
+// trackTaggable keys its record by — reflect.ValueOf(t), the Taggable itself. A Taggable map
+// held through a pointer has two addresses (the pointer and the map header): registering the
+// dereferenced field tracks the same map a second time with an empty record, and the sweep
+// of that second entry redacts what the tags preserved or encrypted.
+func (c *Ctx) ruleTaggableTrackIdentity(rule string) {
+	p, r := c.P, c.R
+	n := 0
+	for _, w := range []struct{ recv, name string }{{"Filter", "Process"}, {"Filter", "filterField"}} {
+		fn := p.Method(PkgEncrypt, w.recv, w.name)
+		if fn == nil || fn.Blocks == nil {
+			continue
+		}
+		tb := p.NewTerms(nil)
+		ft := callsTo(fn, func(nm string, cc *ssa.CallCommon) bool { return nm == "(*filters/encrypt.Filter).filterTaggable" })
+		for _, tk := range callsTo(fn, func(nm string, cc *ssa.CallCommon) bool { return nm == "(*filters/encrypt.trackedMaps).trackMap" }) {
+			// the tracking call of a Taggable arm: dominated by a filterTaggable call
+			var tag ssa.CallInstruction
+			for _, f := range ft {
+				if dominatesInstr(f, tk) {
+					tag = f
+				}
+			}
+			if tag == nil {
+				continue
+			}
+			al, ok := stripConv(tk.Common().Args[1]).(*ssa.Alloc)
+			if !ok {
+				continue
+			}
+			var val ssa.Value
+			for _, st := range litStores(al) {
+				if fa, ok := st.Addr.(*ssa.FieldAddr); ok && fieldName(fa) == "value" {
+					val = st.Val
+				}
+			}
+			if val == nil {
+				continue
+			}
+			n++
+			vt := tb.Of(val)
+			tt := tb.Of(tag.Common().Args[2])
+			okID := false
+			if vc, isCall := val.(*ssa.Call); isCall && calleeName(&vc.Call) == "reflect.ValueOf" && len(vc.Call.Args) == 1 {
+				unwrap := func(v ssa.Value) ssa.Value {
+					for i := 0; i < 4; i++ {
+						switch x := v.(type) {
+						case *ssa.MakeInterface:
+							v = x.X
+						case *ssa.ChangeInterface:
+							v = x.X
+						case *ssa.ChangeType:
+							v = x.X
+						default:
+							return v
+						}
+					}
+					return v
+				}
+				okID = unwrap(vc.Call.Args[0]) == unwrap(tag.Common().Args[2])
+			}
+			r.Check(okID, rule, p.ShortFn(fn)+":track-identity", p.InstrPos(tk), "the Taggable map is tracked under reflect.ValueOf(the Taggable), the identity trackTaggable uses",
+				"after filterTaggable("+shortStr(tt.String(), 60)+") the map is tracked as "+shortStr(vt.String(), 100)+", not as reflect.ValueOf of that Taggable: for a Taggable map held through a pointer the two have different addresses, so the map is tracked twice — once with the record of its tagged keys, once without — and the sweep of the second entry redacts the public and replaces the encrypted / hmac-ed values")
+		}
+	}
+	if n < 2 {
+		r.Und(rule, "track-identity:instance-floor", "", fmt.Sprintf("only %d tracking calls after filterTaggable found (Process and filterField expected)", n))
+	}
+}
+
+// rulePointerKindGuard (C09.nilelem <fn>:Pointer-kind): reflect.Value.Pointer panics for
+// kinds that have no pointer (a struct, a string, an int). Every call of it in package
+// encrypt is made on a path that established the operand's kind as Map or Ptr (or its type
+// as a pointer type): what a Taggable is, and what a tag pointer's parent path leads to, is
+// the caller's data — a by-value Taggable struct whose tag names one of its own fields, or a
+// pointer through a struct held by value, must yield an error, not a panic inside Process.
+func (c *Ctx) rulePointerKindGuard(rule string) {
+	p, r := c.P, c.R
+	n := 0
+	for _, f := range p.FuncsIn(PkgEncrypt) {
+		calls := callsTo(f, func(nm string, cc *ssa.CallCommon) bool { return nm == "(reflect.Value).Pointer" })
+		if len(calls) == 0 || f.Blocks == nil {
+			continue
+		}
+		paths := c.enum(rule, f, PathOpts{})
+		if f.Parent() != nil {
+			// a closure called on the spot: the guard is established by the enclosing function on the
+			// way to the closure's call; decide there, on the operand as the closure names it
+			parent := f.Parent()
+			var site ssa.Instruction
+			eachInstr(parent, func(in ssa.Instruction) {
+				if ci, ok := in.(ssa.CallInstruction); ok {
+					if mc, ok := ci.Common().Value.(*ssa.MakeClosure); ok && mc.Fn == ssa.Value(f) {
+						site = in
+					}
+				}
+			})
+			for _, call := range calls {
+				n++
+				ot := p.NewTerms(nil).Of(call.Common().Args[0]).String()
+				construct := p.ShortFn(f) + ":Pointer-kind(" + shortStr(ot, 50) + ")"
+				okAll, reached := site != nil, false
+				if site != nil {
+					for _, pa := range c.enum(rule, parent, PathOpts{}) {
+						hit := false
+						for _, s := range pa.Steps {
+							if s.In == site && s.Depth == 0 {
+								hit = true
+							}
+						}
+						if !hit {
+							continue
+						}
+						reached = true
+						g := false
+						for _, at := range pa.Atoms {
+							if at.Op == "eq" && !at.Neg && len(at.L.Args) == 1 && at.L.Args[0].String() == ot {
+								if at.L.Is("Call", "(reflect.Value).Kind") {
+									if k, ok := constInt(at.R.V); ok && (k == 21 || k == 22) {
+										g = true
+									}
+								}
+								if at.L.Is("Call", "(reflect.Value).Type") && at.R.Is("Call", "reflect.TypeOf") {
+									g = true
+								}
+							}
+						}
+						if !g {
+							okAll = false
+						}
+					}
+				}
+				r.Check(okAll && reached, rule, construct, p.InstrPos(call), "the enclosing function established the operand's kind before it calls the closure", "reflect.Value.Pointer() inside a closure whose enclosing function does not establish the operand's kind on every path to the closure's call")
+			}
+			continue
+		}
+		for _, call := range calls {
+			n++
+			tb0 := p.NewTerms(nil)
+			construct := p.ShortFn(f) + ":Pointer-kind(" + shortStr(tb0.Of(call.Common().Args[0]).String(), 50) + ")"
+			bad := ""
+			seen := false
+			for _, pa := range paths {
+				idx := -1
+				for i, s := range pa.Steps {
+					if s.In == ssa.Instruction(call.(ssa.Instruction)) && s.Depth == 0 {
+						idx = i
+					}
+				}
+				if idx < 0 {
+					continue
+				}
+				seen = true
+				otT := pa.TermsAt(pa.Steps[idx]).Of(call.Common().Args[0])
+				ot := otT.String()
+				same := func(x *Term) bool {
+					return x.String() == ot || (x.V != nil && otT.V != nil && x.V == otT.V)
+				}
+				guarded := false
+				for _, at := range pa.Atoms {
+					if at.Op != "eq" || at.Neg {
+						continue
+					}
+					if at.L.Is("Call", "(reflect.Value).Kind") && len(at.L.Args) == 1 && same(at.L.Args[0]) {
+						if k, ok := constInt(at.R.V); ok && (k == 21 || k == 22 || k == 18 || k == 19 || k == 23 || k == 26) {
+							guarded = true
+						}
+					}
+					if at.L.Is("Call", "(reflect.Value).Type") && len(at.L.Args) == 1 && same(at.L.Args[0]) && at.R.Is("Call", "reflect.TypeOf") {
+						guarded = true // equal to the type of a pointer literal (&structpb.Struct{})
+					}
+				}
+				if !guarded && bad == "" {
+					bad = shortStr(p.PathSummary(pa), 220)
+				}
+			}
+			if !seen {
+				continue // unreachable within the enumeration bounds
+			}
+			r.Check(bad == "", rule, construct, p.InstrPos(call), "Pointer() is called only where the operand's kind was found to be Map or Ptr",
+				"reflect.Value.Pointer() is called on a value whose kind was not established on the way ("+bad+"): for a struct held by value (a by-value Taggable struct whose tag names its own field, a pointer that leads through a struct) reflect panics inside Process instead of the tag being reported as an error")
+		}
+	}
+	if n < 4 {
+		r.Und(rule, "Pointer-kind:instance-floor", "", fmt.Sprintf("only %d Pointer() calls found in package encrypt (trackMap, the sweep and trackTaggable expected)", n))
 	}
 }
